@@ -10,6 +10,7 @@ mod gains;
 mod common;
 mod etrade;
 mod fmv;
+mod fmvpdf;
 mod errvis;
 mod fuzz;
 mod fx;
@@ -68,6 +69,10 @@ fn main() {
     // multi-call: re-executed as the real `acb` front end (family determinism)
     if std::env::var("ACB_VERIF_MULTICALL").as_deref() == Ok("acb") {
         std::process::exit(if acb::cmd::command_main().is_ok() { 0 } else { 1 });
+    }
+    // ... or as the real `questrade-statement-fmv` tool (family fmvpdf)
+    if std::env::var("ACB_VERIF_MULTICALL").as_deref() == Ok("qfmv") {
+        std::process::exit(if acb::peripheral::questrade_statement_fmv_impl::run().is_ok() { 0 } else { 1 });
     }
     let args: Vec<String> = std::env::args().collect();
     if args.len() < 2 {
@@ -325,6 +330,16 @@ fn main() {
         "layout-replay" => replay_stdin(&mut w, layout::replay),
         "summary-replay" => replay_stdin(&mut w, summary::replay),
         "csvrt-replay" => replay_stdin(&mut w, csvrt::replay),
+        "fmvpdf" => {
+            let mut r = rng::Rng::new(seed ^ 0xF3D);
+            for i in 0..count {
+                let mut cr = r.fork();
+                let mut s = String::new();
+                fmvpdf::run_case(&format!("P{}-{}", seed, i), &mut cr, &mut s);
+                w.write_all(s.as_bytes()).unwrap();
+            }
+            fmvpdf::cleanup();
+        }
         "cli" => {
             let mut r = rng::Rng::new(seed ^ 0xC11);
             for i in 0..count {
